@@ -286,6 +286,84 @@ pub fn gen_size(r: &mut Rng, big: bool) -> u32 {
     }
 }
 
+/// Byte-string-like types whose `size` is (about) the encoded length: used when a run needs a genuinely large frame.
+pub const BYTEY_TYS: &[Ty] = &[Ty::Str, Ty::String, Ty::Bytes, Ty::ByteSliceRef];
+
+/// Sizes of 64 KiB and more: around the 2-byte/4-byte head boundary, past typical 64 KiB / 128 KiB chunk sizes.
+pub fn gen_big_size(r: &mut Rng) -> u32 {
+    match r.below(6) {
+        0 => r.range(65_530, 65_545) as u32,
+        1 => r.range(65_536, 70_000) as u32,
+        2 => r.range(70_000, 140_000) as u32,
+        3 => r.range(131_060, 131_080) as u32,
+        4 => r.range(100_000, 100_010) as u32,
+        _ => r.range(140_000, 200_000) as u32,
+    }
+}
+
+/// Overall shape of a framed-I/O run (shared by C14, C15, C16).
+pub struct RunShape {
+    /// item 0 is a frame of 64 KiB or more (followed by a few to a couple of dozen small ones)
+    pub big: bool,
+    /// 17..=48 small frames on one object (counters, adaptive heuristics, "the N-th call")
+    pub history: bool,
+    /// 257..=600 tiny frames
+    pub marathon: bool,
+    pub nframes: usize,
+    pub profile: u64,
+    /// hand the object a recycled buffer far larger than any frame of the run
+    pub roomy_init: Option<u32>,
+}
+
+pub fn gen_shape(r: &mut Rng, thorough: bool) -> RunShape {
+    let big = r.chance(1, if thorough { 40 } else { 150 });
+    let marathon = !big && r.chance(1, 150);
+    let history = !big && !marathon && r.chance(1, 20);
+    let max_frames = if thorough && r.chance(1, 4) { 20 } else { 8 };
+    let nframes = if big {
+        1 + *r.pick(&[0u64, 0, 1, 3, 16, 17, 24])
+    } else if marathon {
+        r.range(257, 600)
+    } else if history {
+        r.range(17, 48)
+    } else {
+        1 + r.below(max_frames)
+    } as usize;
+    let profile = if marathon || history { r.below(2) } else { r.below(4) };
+    let roomy_init = if (history || big) && r.chance(1, 2) { Some(r.range(65_600, 200_000) as u32) } else { None };
+    RunShape { big, history, marathon, nframes, profile, roomy_init }
+}
+
+impl RunShape {
+    /// size parameter of item `idx`
+    pub fn size(&self, r: &mut Rng, idx: usize) -> u32 {
+        if self.big {
+            return if idx == 0 { gen_big_size(r) } else { r.below(30) as u32 };
+        }
+        match self.profile {
+            0 => r.below(4) as u32,
+            1 => r.below(30) as u32,
+            _ => gen_size(r, false),
+        }
+    }
+    /// transfer size of one short read / short write
+    pub fn xfer(&self, r: &mut Rng, gran: u32, largest_frame: usize) -> u32 {
+        if !self.big {
+            return 1 + r.below(gran as u64) as u32;
+        }
+        let m = largest_frame.max(2) as u64;
+        match r.below(7) {
+            0 => 1 + r.below(gran as u64) as u32,
+            1 => *r.pick(&[4095u32, 4096, 4097, 16_383, 16_384, 16_385, 65_535, 65_536, 65_537, 131_072]),
+            2 => (m - r.below(8).min(m - 1)) as u32,
+            3 => 1 + r.below(m) as u32,
+            4 if m > 65_540 => (65_536 + r.below(m - 65_536)) as u32,
+            5 => 1 + r.below(70_000) as u32,
+            _ => u32::MAX,
+        }
+    }
+}
+
 pub fn gen_spec(r: &mut Rng, tys: &[Ty], big: bool) -> ValSpec {
     ValSpec { ty: *r.pick(tys), size: gen_size(r, big), seed: r.next_u64() }
 }
